@@ -86,7 +86,7 @@ def almost(r, x):
     if isinstance(x, bool):
         return r.choice([int(x), str(x), not x])
     if isinstance(x, int):
-        return r.choice([str(x), x + 1, bool(x) if x in (0, 1) else -x, None])
+        return r.choice([str(x), x + 1, bool(x) if x in (0, 1) else -x, None, "", x * 1000 + 7])
     if isinstance(x, str):
         if x == "":
             return r.choice([None, " ", 0])
@@ -182,6 +182,8 @@ FORCED = [
     ({"name": "bob"}, {"nome": "bob", "d": [1, 2, 3, 4]}), ({"k": [[1], "x"]}, {"k": [[1, 2, 3], "y", {"z": None}]}), ([], ["", "b"]),
     ("abc", "abd"), ("a", "b"), ("", "a"), ("hello", "help"), ([[1, 2], [3]], [[3], [1, 2]]),
     ({"ab": [1, 2], "ac": [1, 2]}, {"ab": [1, 2, 3]}), ([None, None], [None]), ([[], []], [[]]),
+    # a multi-character non-string scalar against the empty string / null (levenshtein_distance with an empty side)
+    ([123456], [""]), ([""], [123456]), ([12.5, 7], ["", 7]), ({"a": 123456}, {"a": ""}), ([True], [""]), ([123456], [None]),
 ]
 
 
